@@ -130,6 +130,8 @@ type waiter struct {
 	expectReturned bool
 	expectState    string // model state at the step the waiter had to return
 	cancelled      bool
+	waitedThrough  bool // it was still waiting after the step it was registered in
+	eitherOutcome  bool // it was waiting while the service passed through Running without staying there
 }
 
 func settle() {
@@ -349,6 +351,15 @@ func runSequence(t *testing.T, fns [3]bool, seq []string) (failure string) {
 					if !decided {
 						w.expectState = "cancelled"
 					}
+					// a service without running function is Running only for an instant: a waiter released by
+					// reaching Running reads the state when it wakes up, so it reports success or the state the
+					// service has moved on to - whichever the scheduler makes it see
+					if decided && w.kind == "awaitRunning" && w.waitedThrough && m.ranRunning && !m.hasRun && m.state != "Running" {
+						w.eitherOutcome = true
+					}
+				}
+				if !w.expectReturned {
+					w.waitedThrough = true
 				}
 				w.mu.Lock()
 				ret, err := w.returned, w.err
@@ -370,6 +381,9 @@ func runSequence(t *testing.T, fns [3]bool, seq []string) (failure string) {
 						fail("step %d: waiter %d (%s) returned %v although the state was %s", si, wi, w.kind, err, okState)
 					}
 				default:
+					if err == nil && w.eitherOutcome {
+						break
+					}
 					if err == nil {
 						fail("step %d: waiter %d (%s) returned nil although the state was %s", si, wi, w.kind, w.expectState)
 					}
@@ -872,6 +886,93 @@ func TestIdleAndTimerServices(t *testing.T) {
 		vx.Wait()
 		if timer.State() != services.Failed || timer.FailureCase() == nil || timer.FailureCase().Error() != "tick-err" || ticks != 5 {
 			t.Fatalf("timer service after failing iteration: state %v cause %v ticks %d", timer.State(), timer.FailureCase(), ticks)
+		}
+	})
+}
+
+// TestTimerServiceRapid: timer services with iterations that take time; a stop may arrive between two
+// ticks or in the middle of an iteration, and an iteration may fail at any moment, including while
+// the service is being stopped. "When iteration returns error, service fails": the first error is the
+// failure cause, the stopping function receives it, and the iterations stop.
+func TestTimerServiceRapid(t *testing.T) {
+	rapid.Check(t, func(rt *rapid.T) {
+		iterTakes := time.Duration(rapid.SampledFrom([]int{0, 300, 1500}).Draw(rt, "iterationTakesMs")) * time.Millisecond
+		failAt := rapid.IntRange(0, 6).Draw(rt, "failingIteration") // 0 = none
+		stopAfter := time.Duration(rapid.SampledFrom([]int{500, 1000, 1100, 1200, 2300, 3100, 5000, 9000}).Draw(rt, "stopAfterMs")) * time.Millisecond
+		stopErr := rapid.Bool().Draw(rt, "stoppingFunctionFails")
+		var failure string
+		vx.Bubble(t, func(b *vx.B) {
+			iterations := 0
+			iterErr := errors.New("iteration failed")
+			stopFailed := errors.New("stopping failed")
+			var gotInStop error
+			stopCalls := 0
+			svc := services.NewTimerService(time.Second, nil, func(context.Context) error {
+				iterations++
+				n := iterations
+				time.Sleep(iterTakes) // does not watch its context: it finishes what it began
+				if n == failAt {
+					return iterErr
+				}
+				return nil
+			}, func(e error) error {
+				stopCalls++
+				gotInStop = e
+				if stopErr {
+					return stopFailed
+				}
+				return nil
+			})
+			if err := services.StartAndAwaitRunning(context.Background(), svc); err != nil {
+				failure = fmt.Sprintf("start: %v", err)
+				return
+			}
+			time.Sleep(stopAfter)
+			svc.StopAsync()
+			time.Sleep(30 * time.Second)
+			vx.Wait()
+			atEnd := iterations
+			time.Sleep(10 * time.Second)
+			vx.Wait()
+			if iterations != atEnd {
+				failure = fmt.Sprintf("iterations went on after the service ended: %d then %d", atEnd, iterations)
+				return
+			}
+			failedIteration := failAt > 0 && iterations >= failAt
+			vx.Eval(1)
+			if failedIteration {
+				vx.NonTrivial(vx.FP("timer", iterTakes, failAt, stopAfter, stopErr))
+			}
+			if failedIteration && iterations != failAt {
+				failure = fmt.Sprintf("iteration %d failed but %d iterations ran", failAt, iterations)
+				return
+			}
+			if stopCalls != 1 {
+				failure = fmt.Sprintf("the stopping function ran %d times", stopCalls)
+				return
+			}
+			switch {
+			case failedIteration:
+				if svc.State() != services.Failed || !errors.Is(svc.FailureCase(), iterErr) {
+					failure = fmt.Sprintf("iteration %d returned an error (stop requested after %v, an iteration takes %v) but the service is %v with failure cause %v", failAt, stopAfter, iterTakes, svc.State(), svc.FailureCase())
+					return
+				}
+				if !errors.Is(gotInStop, iterErr) {
+					failure = fmt.Sprintf("the stopping function was handed %v, the failed iteration returned %v", gotInStop, iterErr)
+					return
+				}
+			case stopErr:
+				if svc.State() != services.Failed || !errors.Is(svc.FailureCase(), stopFailed) {
+					failure = fmt.Sprintf("the stopping function failed but the service is %v with failure cause %v", svc.State(), svc.FailureCase())
+				}
+			default:
+				if svc.State() != services.Terminated || svc.FailureCase() != nil {
+					failure = fmt.Sprintf("nothing failed but the service is %v with failure cause %v", svc.State(), svc.FailureCase())
+				}
+			}
+		})
+		if failure != "" {
+			rt.Fatalf("%s", failure)
 		}
 	})
 }
